@@ -18,13 +18,27 @@ inductive Op
   | popScope                               -- leave `_NewScopeCtx`
   | upScope | downScope                    -- `_UpScopeCtx`
   | enterFunc | exitFunc                   -- save/set/restore `_in_FunctionDef`
-  | classDelayed (name : Str)              -- `if self._in_class_def == 0: scopestack._class_delayed[name] = None`
+  /-- `if self._in_class_def == 0 [and not self._in_FunctionDef]: scopestack._class_delayed[name] = None`
+      (`modOnly`: the bracketed condition is present) -/
+  | classDelayed (name : Str) (modOnly : Bool)
   | incClass | decClass
-  | removeMissing (name : Str)             -- `_remove_from_missing_imports`
+  /-- `_remove_from_missing_imports` (`modOnly`: only for a class at module level) -/
+  | removeMissing (name : Str) (modOnly : Bool)
   | dunderClass                            -- `if self._in_class_def: scopestack[-1]["__class__"] = None`
   | storeIfNotInClass (name : Str)         -- `if not self._in_class_def: self._visit_Store(name)`
   | allNames (names : List Str)            -- `_visit__all__` on a list/tuple of string constants
-  | delName (name : Str)                   -- `visit_Delete`, Name target
+  /-- `visit_Delete`, Name target (`deep`: the dotted keys below the name go too); also the unbinding of `except … as n` -/
+  | delName (name : Str) (deep : Bool)
+  /-- `visit_alias` / `_visit_StoreImport` for one alias: `_visit_Store(key, value)` for every key (the leading prefixes
+      of `import a.b.c`, then the bound name), all with the same value; `bind` = `asname or name`, `idx` = position of the
+      alias in its statement, `plain` = star import or `from __future__` (no `_UseChecker` even in unused-import mode) -/
+  | importAlias (keys : List Str) (bind : Str) (idx : Nat) (plain : Bool)
+  /-- entering / leaving a statement whose parts may not run (`_conditional_depth`; only matters in unused-import mode) -/
+  | condEnter | condExit
+  /-- `except E as n`: remember whether `n` was bound in the top scope (`previous = scope.get(n, missing)`) -/
+  | saveHas (name : Str)
+  /-- … and put the previous binding back after the handler (`scope[n] = previous`) -/
+  | restoreHas (name : Str)
   deriving DecidableEq, Repr
 
 /-! ### compile: AST → visitor actions in visit order -/
@@ -42,6 +56,22 @@ structure Fixes where
   annValueFirst : Bool := false
   /-- (a) comprehensions: first iterable in the enclosing scope, the rest in a scope that hides class scopes -/
   compScope : Bool := false
+  /-- parameter annotations are visited in the enclosing scope, before any parameter is stored -/
+  paramAnnOuter : Bool := false
+  /-- unused-import mode only: a name of `__all__` that is bound is also looked up again at the end of the module
+      (`_deferred_use_marks`) -/
+  allUseMark : Bool := false
+  /-- `del foo` also removes the keys `foo.…` stored by `import foo.bar` -/
+  delDotted : Bool := false
+  /-- a21b6de: stores inside `if`/`for`/`while`/`try` do not report the overwritten import as unused, and the binding that
+      preceded `except … as n` is put back after the handler -/
+  condStore : Bool := false
+  /-- 0e29f32 (unused-import mode): a name read by a function body seen so far is not reported as rebound-without-use -/
+  deferredNames : Bool := false
+  /-- a class inside a function (or another class) neither goes to `_class_delayed` nor removes names from the missing list -/
+  classModuleOnly : Bool := false
+  /-- 931d7c0: the return annotation of a `def` is visited in the enclosing scope (`_UpScopeCtx`) -/
+  returnsOuter : Bool := false
   deriving DecidableEq, Repr, Inhabited
 
 def strConsts : List Expr → Option (List Str)
@@ -100,15 +130,21 @@ mutual
     | [] => []
     | none :: r => cOptExprs fx r
     | some e :: r => cExpr fx e ++ cOptExprs fx r
-  /-- `visit_arg` for each parameter: annotation, then the name as a Store -/
+  /-- `visit_arg` for each parameter: annotation (unless `paramAnnOuter`), then the name as a Store -/
   def cParams (fx : Fixes) : List Param → List Op
     | [] => []
     | .mk n none :: ps => .store n :: cParams fx ps
-    | .mk n (some ann) :: ps => cExpr fx ann ++ .store n :: cParams fx ps
+    | .mk n (some ann) :: ps => (if fx.paramAnnOuter then [] else cExpr fx ann) ++ .store n :: cParams fx ps
+  /-- the annotations of the parameters, in order -/
+  def cParamAnns (fx : Fixes) : List Param → List Op
+    | [] => []
+    | .mk _ none :: ps => cParamAnns fx ps
+    | .mk _ (some ann) :: ps => cExpr fx ann ++ cParamAnns fx ps
   /-- `visit_arguments` -/
   def cArgs (fx : Fixes) : Args → List Op
     | .mk args defaults vararg kwonly kwdefaults kwarg =>
-      [.upScope] ++ cExprs fx defaults ++ cOptExprs fx kwdefaults ++ [.downScope]
+      [.upScope] ++ cExprs fx defaults ++ cOptExprs fx kwdefaults
+        ++ (if fx.paramAnnOuter then cParamAnns fx args ++ cParamAnns fx kwonly else []) ++ [.downScope]
         ++ cParams fx args ++ cParams fx kwonly
         ++ (match vararg with | some v => [.store v] | none => [])
         ++ (match kwarg with | some v => [.store v] | none => [])
@@ -136,11 +172,20 @@ def cOptExpr (fx : Fixes) : Option Expr → List Op
   | none => []
   | some e => cExpr fx e
 
-/-- `visit_alias` / `_visit_StoreImport`: for `import a.b.c` (no asname, not a star) store `a`, `a.b`, then the name. -/
-def cAlias (_isFrom : Bool) (a : Alias) : List Op :=
+/-- the return annotation of a `def` -/
+def cRet (fx : Fixes) : Option Expr → List Op
+  | none => []
+  | some r => if fx.returnsOuter then .upScope :: (cExpr fx r ++ [.downScope]) else cExpr fx r
+
+/-- `visit_alias` / `_visit_StoreImport`: for `import a.b.c` (no asname, not a star) the keys are `a`, `a.b`, then the name. -/
+def cAlias (modulename : Option Str) (idx : Nat) (a : Alias) : Op :=
   let name := a.asname.getD a.name
-  let pre := if a.asname.isNone ∧ a.name ≠ ['*'] then ((prefixes (splitDots a.name)).dropLast).map (fun p => Op.store (joinDots p)) else []
-  pre ++ [.store name]
+  let pre := if a.asname.isNone ∧ a.name ≠ ['*'] then ((prefixes (splitDots a.name)).dropLast).map joinDots else []
+  .importAlias (pre ++ [name]) name idx (a.name = ['*'] ∨ modulename = some "__future__".toList)
+
+def cAliases (modulename : Option Str) : Nat → List Alias → List Op
+  | _, [] => []
+  | idx, a :: r => cAlias modulename idx a :: cAliases modulename (idx + 1) r
 
 def cWithItems (fx : Fixes) : List WithItem → List Op
   | [] => []
@@ -153,7 +198,7 @@ def cDecos (fx : Fixes) (ln : Nat) : List Expr → List Op
 
 def cDelTargets (fx : Fixes) : List Expr → List Op
   | [] => []
-  | .name n :: r => .delName n :: cDelTargets fx r
+  | .name n :: r => .delName n fx.delDotted :: cDelTargets fx r
   | .attr e _ :: r => cExpr fx e ++ cDelTargets fx r
   | e :: r => cExpr fx e ++ cDelTargets fx r
 
@@ -184,22 +229,30 @@ mutual
       if fx.annValueFirst then
         (match v with | some e => cExpr fx e ++ cTarget fx t | none => cAnnBare fx t) ++ cExpr fx ann
       else cTarget fx t ++ cExpr fx ann ++ cOptExpr fx v
-    | .import_ names => (names.map (cAlias false)).flatten
-    | .importFrom _ names => (names.map (cAlias true)).flatten
+    | .import_ names => cAliases none 0 names
+    | .importFrom m names => cAliases (some m) 0 names
     | .funcDef name a body decos returns =>
-      [.pushScope true false false, .dunderClass] ++ cDecos fx ln decos ++ [.setLine ln] ++ cArgs fx a ++ cOptExpr fx returns
+      [.pushScope true false false, .dunderClass] ++ cDecos fx ln decos ++ [.setLine ln] ++ cArgs fx a ++ cRet fx returns
         ++ [.enterFunc, .pushScope false false true, .storeIfNotInClass name] ++ cStmts fx ln body
         ++ [.popScope, .exitFunc, .popScope, .store name]
     | .classDef name bases body decos =>
-      cExprs fx bases ++ cDecos fx ln decos ++ [.classDelayed name, .pushScope false true false, .incClass, .store name]
-        ++ cStmts fx ln body ++ [.decClass, .popScope, .removeMissing name, .store name]
+      cExprs fx bases ++ cDecos fx ln decos ++ [.classDelayed name fx.classModuleOnly, .pushScope false true false, .incClass, .store name]
+        ++ cStmts fx ln body ++ [.decClass, .popScope, .removeMissing name fx.classModuleOnly, .store name]
     | .for_ t it body orelse =>
-      (if fx.forIterFirst then cExpr fx it ++ cTarget fx t else cTarget fx t ++ cExpr fx it)
-        ++ cStmts fx ln body ++ cStmts fx ln orelse
-    | .while_ t body orelse => cExpr fx t ++ cStmts fx ln body ++ cStmts fx ln orelse
-    | .if_ t body orelse => cExpr fx t ++ cStmts fx ln body ++ cStmts fx ln orelse
+      (if fx.condStore then [.condEnter] else []) ++
+      ((if fx.forIterFirst then cExpr fx it ++ cTarget fx t else cTarget fx t ++ cExpr fx it)
+        ++ cStmts fx ln body ++ cStmts fx ln orelse) ++ (if fx.condStore then [.condExit] else [])
+    | .while_ t body orelse =>
+      (if fx.condStore then [.condEnter] else []) ++ (cExpr fx t ++ cStmts fx ln body ++ cStmts fx ln orelse)
+        ++ (if fx.condStore then [.condExit] else [])
+    | .if_ t body orelse =>
+      (if fx.condStore then [.condEnter] else []) ++ (cExpr fx t ++ cStmts fx ln body ++ cStmts fx ln orelse)
+        ++ (if fx.condStore then [.condExit] else [])
     | .with_ items body => cWithItems fx items ++ cStmts fx ln body
-    | .try_ body hs orelse final => cStmts fx ln body ++ cHandlers fx ln hs ++ cStmts fx ln orelse ++ cStmts fx ln final
+    | .try_ body hs orelse final =>
+      (if fx.condStore then [.condEnter] else []) ++
+      (cStmts fx ln body ++ cHandlers fx ln hs ++ cStmts fx ln orelse ++ cStmts fx ln final)
+        ++ (if fx.condStore then [.condExit] else [])
     | .return_ e => cOptExpr fx e
     | .pass => []
     | .raise_ e => cExpr fx e
@@ -213,8 +266,12 @@ mutual
   def cHandlers (fx : Fixes) (ln : Nat) : List Handler → List Op
     | [] => []
     | .mk l type name body :: hs =>
-      .setLine l :: (cOptExpr fx type ++ (match name with | some n => [.store n] | none => []) ++ cStmts fx l body
-          ++ (match name with | some n => if fx.exceptUnbind then [.delName n] else [] | none => []))
+      .setLine l :: (cOptExpr fx type
+          ++ (match name with | some n => (if fx.condStore then [.saveHas n] else []) ++ [.store n] | none => [])
+          ++ cStmts fx l body
+          ++ (match name with
+              | some n => if fx.exceptUnbind then .delName n false :: (if fx.condStore then [.restoreHas n] else []) else []
+              | none => []))
         ++ cHandlers fx ln hs
 end
 
@@ -246,6 +303,8 @@ structure AState where
   missing : List Missing := []
   deferred : List Deferred := []
   log : List Effect := []
+  /-- `previous is not missing` of the enclosing `except … as n` handlers, innermost first -/
+  savedHas : List Bool := []
   deriving Repr
 
 def AState.emit (st : AState) (es : List Effect) : AState := { st with log := st.log ++ es }
@@ -320,23 +379,37 @@ def step (reg : Registry) (st : AState) : Op → AState
     match st.savedFunc with
     | [] => st
     | b :: r => { st with inFunc := b, savedFunc := r }
-  | .classDelayed name =>
-    if st.inClass = 0 ∧ st.stack.sharedDelayed then
+  | .classDelayed name modOnly =>
+    if st.inClass = 0 ∧ (modOnly = true → st.inFunc = false) ∧ st.stack.sharedDelayed then
       { st with heap := st.heap.update delayedId (·.set name .none), log := st.log ++ [.nsWrite delayedId name] }
     else st
   | .incClass => { st with inClass := st.inClass + 1 }
   | .decClass => { st with inClass := st.inClass - 1 }
-  | .removeMissing name =>
-    { st with missing := removeLoop (fun m => dottedStartsWith m.name name && (m.topIsClass || !m.inClass))
-                                   st.missing.length 0 st.missing }
+  | .removeMissing name modOnly =>
+    if modOnly = true ∧ ¬ (st.inClass = 0 ∧ st.inFunc = false) then st
+    else
+      { st with missing := removeLoop (fun m => dottedStartsWith m.name name && (m.topIsClass || !m.inClass))
+                                     st.missing.length 0 st.missing }
   | .dunderClass => if st.inClass ≠ 0 then storeTop st "__class__".toList else st
   | .storeIfNotInClass name => if st.inClass = 0 then storeTop st name else st
   | .allNames names =>
     if st.inFunc then st else names.foldl (deferGlobal reg) st
-  | .delName name =>
+  | .importAlias keys _ _ _ => keys.foldl storeTop st
+  | .condEnter => st
+  | .condExit => st
+  | .saveHas name => { st with savedHas := ((st.heap.get st.stack.top).get name).isSome :: st.savedHas }
+  | .restoreHas name =>
+    match st.savedHas with
+    | [] => st
+    | b :: r => if b then storeTop { st with savedHas := r } name else { st with savedHas := r }
+  | .delName name deep =>
     let i := st.stack.top
     if ((st.heap.get i).get name).isSome then
-      { st with heap := st.heap.update i (·.del name), log := st.log ++ [.nsDel i name] }
+      let st1 : AState := { st with heap := st.heap.update i (·.del name), log := st.log ++ [.nsDel i name] }
+      if deep then
+        { st1 with heap := st1.heap.update i (·.delBelow name),
+                   log := st1.log ++ ((st1.heap.get i).dottedBelow name).map (Effect.nsDel i) }
+      else st1
     else st
 
 def runOps (reg : Registry) (st : AState) (ops : List Op) : AState := ops.foldl (step reg) st
